@@ -31,6 +31,9 @@ type TupleV []Value
 type ErrV struct{ code *Term }
 type NilV struct{}
 
+// FloatV is a concrete floating-point value (floats are supported on concrete operands only).
+type FloatV struct{ f float64 }
+
 // StrV is a string of concrete length whose bytes may be symbolic; alt != nil makes
 // it a guarded choice between two strings (merge of strings of different length).
 type StrV struct {
@@ -453,6 +456,9 @@ func sameValue(a, b Value) bool {
 	case NilV:
 		_, ok := b.(NilV)
 		return ok
+	case FloatV:
+		y, ok := b.(FloatV)
+		return ok && x.f == y.f
 	case StrV:
 		y, ok := b.(StrV)
 		if !ok {
@@ -744,6 +750,9 @@ func (e *Exec) zero(t types.Type) Value {
 	case *types.Basic:
 		if u.Info()&types.IsString != 0 {
 			return StrV{}
+		}
+		if u.Info()&types.IsFloat != 0 {
+			return FloatV{0}
 		}
 		if u.Kind() == types.UnsafePointer || u.Kind() == types.UntypedNil {
 			return NilV{}
